@@ -95,6 +95,17 @@ static char *vf_strdup(const char *s) {
     vf_live_blocks++;
     return p;
 }
+static char *vf_strndup(const char *s, size_t n) {
+    if (vf_should_fail()) { errno = ENOMEM; return NULL; }
+    size_t l = 0;
+    while (l < n && s[l] != '\0') l++;
+    char *p = malloc(l + 1);
+    VF_ASSUME(p != NULL);
+    for (size_t i = 0; i < l; i++) p[i] = s[i];
+    p[l] = '\0';
+    vf_live_blocks++;
+    return p;
+}
 static void vf_free(void *p) {
     if (p != NULL) vf_live_blocks--;
     free(p);
@@ -144,6 +155,8 @@ static int vf_usleep(unsigned us) { (void)us; return 0; }
 #define realloc vf_realloc
 #undef strdup
 #define strdup vf_strdup
+#undef strndup
+#define strndup vf_strndup
 #define free vf_free
 #define pthread_mutex_trylock vf_mutex_trylock
 #define pthread_mutex_unlock vf_mutex_unlock
